@@ -4,6 +4,8 @@ import (
 	"encoding/hex"
 	"fmt"
 	"github.com/virus-evolution/gofasta/pkg/gff"
+	"os"
+	"path/filepath"
 	"strings"
 	"time"
 
@@ -105,6 +107,15 @@ func c16Gen(r *RNG, id string) *Case {
 		c.SetInt("bigseed", r.Intn(1<<30)).SetInt("bignrec", r.Range(2600, 3600)).SetInt("bigwidth", r.Range(900, 1100)).SetInt("bigwrap", r.PickInt([]int{60, 70, 80}))
 		c.SetInt("bigmib", r.Range(1, 2))
 		return relOf(c, "bigref", "same")
+	}
+	if r.Chance(1, 40) {
+		// one alignment file named by two options of one command (closest --query X --target X; snps -r first.fa -q X):
+		// each option's reader must see the whole file, as if two copies had been given
+		ids, descs, seqs := c16Valid(r)
+		_ = ids
+		c := NewCase("C16", id)
+		c.Set("text", renderFasta(descs, seqs, layout{width: r.PickInt([]int{0, 60}), crlf: r.Chance(1, 5)}))
+		return relOf(c, "samefile", "same")
 	}
 	if r.Chance(1, 10) {
 		// the `##FASTA` section reader of gff.ReadGFF against the list reader on the same text: a valid file (distinct
@@ -427,6 +438,34 @@ func runBigRef(c *Case) (a, b result) {
 		return "", fmt.Errorf("no record %s", refID)
 	})
 	b = runFindReference(text, refID)
+	return a, b
+}
+
+// runSameFile: `closest` with query and target given as two copies of the text, against the same path given twice
+func runSameFile(c *Case) (a, b result) {
+	if opts.gobin == "" {
+		return result{out: "skipped", status: "ok"}, result{out: "skipped", status: "ok"}
+	}
+	tmpCounter++
+	dir := filepath.Join(opts.tmp, fmt.Sprintf("c16-%d-%d", os.Getpid(), tmpCounter))
+	os.MkdirAll(dir, 0755)
+	defer os.RemoveAll(dir)
+	for _, n := range []string{"x.fa", "y.fa"} {
+		os.WriteFile(filepath.Join(dir, n), []byte(c.Get("text")), 0644)
+	}
+	run := func(q, t string) result {
+		o, se, code, to := runCLI(30*time.Second, "", "closest", "--query", q, "--target", t, "-m", "snp", "-t", "2")
+		if to {
+			return result{status: "timeout"}
+		}
+		if code != 0 {
+			return result{status: "err:" + firstLine(se)}
+		}
+		return result{out: o, status: "ok"}
+	}
+	x, y := filepath.Join(dir, "x.fa"), filepath.Join(dir, "y.fa")
+	a = run(x, y)
+	b = run(x, filepath.Join(dir, ".", "x.fa"))
 	return a, b
 }
 
